@@ -61,20 +61,23 @@
 (* whose words have bit 32 clear (IDEALISATION: the harness writes only    *)
 (* even bytes; a caller can forge a header inside its own data, that is    *)
 (* inherent to the design and outside the statement).  Unaligned pointers  *)
-(* are generated only where ptr-8..ptr is never-written memory.            *)
+(* (never handed out, hence invalid) must fail wherever they point: class  *)
+(* "unaligned" when the 8 bytes before them are never-written memory,      *)
+(* "unaligned-at-block" when they straddle a block header and its          *)
+(* neighbouring data.                                                      *)
 (***************************************************************************)
 EXTENDS Integers, Sequences, FiniteSets, TLC, Json
 
 CONSTANTS NumOrders,        \* number of size classes (real: 23, blocks of 8 B .. 32 MiB)
           PageUnits,        \* units per Wasm page (real: 8192 = 64 KiB)
           MaxPages,         \* the allocator's absolute page limit (real: 65536 = 4 GiB)
-          Inits,            \* set of [bu, bb, pages, memmax, sizes, fw]: heap base = 8*bu + bb bytes,
+          Inits,            \* set of [bu, bb, pages, memmax, sizes, fw, iw]: heap base = 8*bu + bb bytes,
                             \* initial / maximal pages of the linear memory, request sizes in bytes used
-                            \* in this behaviour, generator weight (out of 60) of freeing a live block
+                            \* in this behaviour, generator weights (out of 60) of freeing a live block
+                            \* and of trying an invalid free
           ModelData,        \* TRUE: the caller's data words are kept in mem (engine M)
           AllocFailPoisons, \* allowed values of poisoned after a failed allocation
           TopFits,          \* allowed outcomes (TRUE = succeeds) for a block ending exactly at MaxPages
-          InvalidWeight,    \* generator: out of 60, how often an invalid free is tried
           Depth             \* behaviour length
 
 VARIABLES st, hist, done, after
@@ -103,7 +106,7 @@ OrderOf(size) == CHOOSE o \in Orders : 8 * Pow(o) >= size /\ (o = 0 \/ 8 * Pow(o
 InitState(i) ==
   LET b == i.bu + (IF i.bb > 0 THEN 1 ELSE 0) IN
   [bumper |-> b, heads |-> [o \in Orders |-> Nil], mem |-> <<>>, pages |-> i.pages, memmax |-> i.memmax,
-   base |-> b, poisoned |-> FALSE, live |-> {}, blocks |-> {}, sizes |-> i.sizes, fw |-> i.fw]
+   base |-> b, poisoned |-> FALSE, live |-> {}, blocks |-> {}, sizes |-> i.sizes, fw |-> i.fw, iw |-> i.iw]
 
 MemUnits(s) == s.pages * PageUnits
 
@@ -150,11 +153,14 @@ DoAlloc(s, size, pz, tf) ==
 --------------------------------------------------------------------------
 (* ---- Deallocate(ptr = 8*u + b) ----------------------------------------- *)
 
+(* where an unaligned pointer 8u+b (b > 0) has only never-written memory before it *)
+UnalignedOK(s, u) == u = 0 \/ u - 1 >= s.bumper \/ u < s.base
+
 FreeClass(s, u, b) ==
   IF s.poisoned THEN "poisoned"
   ELSE IF \E a \in s.live : a.p = u /\ b = 0 THEN "live"
   ELSE IF u = 0 THEN "below-8"
-  ELSE IF b # 0 THEN "unaligned"
+  ELSE IF b # 0 THEN (IF UnalignedOK(s, u) THEN "unaligned" ELSE "unaligned-at-block")
   ELSE IF u > MemUnits(s) THEN "out-of-range"
   ELSE IF \E k \in s.blocks : k.h = u - 1 THEN "double-free"
   ELSE IF u - 1 < s.base THEN "below-base"
@@ -177,9 +183,6 @@ DoFree(s, u, b) ==
 (* ---- operations and behaviours ----------------------------------------- *)
 
 TopUnit == MaxPages * PageUnits
-
-(* where an unaligned pointer 8u+b (b > 0) has only never-written memory before it *)
-UnalignedOK(s, u) == u = 0 \/ u - 1 >= s.bumper \/ u < s.base
 
 Apply(s, o, pz, tf) ==
   IF o.op = "Allocate" THEN DoAlloc(s, o.size, pz, tf) ELSE DoFree(s, o.u, o.b)
@@ -214,11 +217,12 @@ Init == /\ \E i \in Inits :
         /\ done = FALSE
         /\ after = 0
 
-(* engine M: every operation on every pointer of the (small) address space *)
+(* engine M: every operation on every pointer of the (small) address space, aligned *)
+(* and unaligned (once poisoned nothing can change: a few pointers suffice there)   *)
+FreeTargets(s) == IF s.poisoned THEN {a.p : a \in s.live} \cup {0, s.base + 1} ELSE 0..(TopUnit + 1)
 AllOps(s) ==
        {[op |-> "Allocate", size |-> z] : z \in s.sizes}
-  \cup {[op |-> "Deallocate", u |-> u, b |-> 0] : u \in 0..(TopUnit + 1)}
-  \cup {[op |-> "Deallocate", u |-> u, b |-> 3] : u \in {x \in 0..(TopUnit + 1) : UnalignedOK(s, x)}}
+  \cup {[op |-> "Deallocate", u |-> u, b |-> b] : u \in FreeTargets(s), b \in {0, 4}}
 NextAll == \E o \in AllOps(st) : Step(o)
 
 (* engine G: one randomly drawn operation per step (single successor) *)
@@ -229,7 +233,8 @@ InvalidCands(s) ==
             \cup {a.p + 1 : a \in {x \in s.live : x.o > 0}}                   \* inside a live block
             \cup {a.p + Pow(a.o) : a \in s.live}                              \* last data unit read as header
             \cup {a.p + Pow(a.o) - 1 : a \in {x \in s.live : x.o > 1}}
-      un == {u \in {0, s.bumper + 1, s.bumper + 3, MemUnits(s), MemUnits(s) + 1, s.base - 1} : u >= 0 /\ UnalignedOK(s, u)}
+      un == {u \in {0, s.bumper + 1, s.bumper + 3, MemUnits(s), MemUnits(s) + 1, s.base - 1} : u >= 0}
+            \cup {k.h : k \in s.blocks} \cup {k.h + 1 : k \in s.blocks}       \* the 8 bytes before it straddle a header
   IN {[u |-> u, b |-> 0] : u \in {x \in al \ lp : x >= 0 /\ x < 536870912}}
      \cup {[u |-> u, b |-> b] : u \in {x \in un : x < 536870912}, b \in {1, 4, 5, 7}}
 
@@ -239,9 +244,9 @@ PickOp(s) ==
   LET r == RandomElement({x \in 1..60 : Len(hist) >= 0})
       lp == {a.p : a \in s.live}
       inv == InvalidCands(s)
-  IN IF r <= InvalidWeight /\ inv # {}
+  IN IF r <= s.iw /\ inv # {}
        THEN LET c == RandomElement(inv) IN [op |-> "Deallocate", u |-> c.u, b |-> c.b]
-     ELSE IF r <= InvalidWeight + s.fw /\ lp # {}
+     ELSE IF r <= s.iw + s.fw /\ lp # {}
        THEN [op |-> "Deallocate", u |-> RandomElement(lp), b |-> 0]
      ELSE [op |-> "Allocate", size |-> RandomElement(s.sizes)]
 NextRand == (\E o \in {PickOp(st)} : after < 3 /\ Step(o)) \/ Finish
